@@ -233,7 +233,7 @@ theorem evaluate_ok [Add α] [Mul α] [One α] [Zero α] (K : Ktensor α) (X : D
     (hX : X.shape = K.shape) (hXwf : X.WF)
     (hW : ∀ W', W = some W' → W'.shape = K.shape ∧ W'.WF) :
     evaluate K X W f g = .ok ⟨f.map (gcpObjective K X W),
-      g.map fun g => mttkrpsDef ⟨K.shape, wY K X W g⟩ K.factors K.ncomp⟩ := by
+      g.map fun g => mttkrpsK ⟨K.shape, wY K X W g⟩ K⟩ := by
   unfold evaluate
   have h1 : (f.isNone && g.isNone) = false := by
     cases f <;> cases g <;> simp at hfg ⊢
@@ -243,8 +243,8 @@ theorem evaluate_ok [Add α] [Mul α] [One α] [Zero α] (K : Ktensor α) (X : D
     cases f with
     | none => rfl
     | some f => simp [gcpObjective, weightedY_eq K X W f hX hXwf hW]
-  have hG : g.map (fun g => mttkrpsDef ⟨K.shape, applyWeights (applyHandle g X.data K.fullD.data) W⟩ K.factors K.ncomp)
-      = g.map fun g => mttkrpsDef ⟨K.shape, wY K X W g⟩ K.factors K.ncomp := by
+  have hG : g.map (fun g => mttkrpsK ⟨K.shape, applyWeights (applyHandle g X.data K.fullD.data) W⟩ K)
+      = g.map fun g => mttkrpsK ⟨K.shape, wY K X W g⟩ K := by
     cases g with
     | none => rfl
     | some g => simp [wY, weightedY_eq K X W g hX hXwf hW]
